@@ -11,7 +11,7 @@ package oauth
 //verif:stub (github.com/tucats/ego/internal/resources.ResHandle).Equals = c22Equals
 //verif:dropgo github.com/tucats/ego/internal/caches.expire
 //verif:overlay internal/language/tokens/zz_verif_c22_hook.go <- harness:C22/tokens_hook.go.txt
-//verif:bound histories of 4 operations (thorough: also 6 operations over a single JWT) from {present token 0 or 1, revoke a token ID, the result cache loses a token's entry, the revocation cache loses an ID's entry} over two JWTs, each verifying or not, with exp an arbitrary instant and the token ID one of {none, j0, j1}; single presentations with every combination of valid/invalid signature, issuer, audience and present/absent exp; the clock an arbitrary non-decreasing instant before every operation
+//verif:bound histories of 4 operations (thorough: also 6 operations over a single JWT) from {present token 0 or 1, revoke a token ID, the result cache loses a token's entry, the revocation cache loses an ID's entry} over two JWTs, each verifying or not, with exp an arbitrary instant and the token ID one of {none, j0, j1}; single presentations with every combination of valid/invalid signature, issuer, audience and present/absent exp; the clock an arbitrary non-decreasing instant before every operation, all within one year of the first
 //verif:assume parseAndValidateJWT is replaced under the engine by its contract: it returns the claims exactly when signature, issuer and audience verify, exp is present and the clock is before exp (the native replay twin runs the real function on real ES256-signed tokens against a published key); the revocation table returns exactly the rows whose id equals the filter (natively: the real SQLite store); cache entries may disappear at any time (sweeper, full cache, purge) and this is modelled by explicit delete operations
 //verif:outside the JWT library itself (signature arithmetic, claim parsing), JWKS fetching over HTTP, concurrent requests, the bearer dispatch in router/auth.go
 
@@ -219,6 +219,7 @@ func VerifC22_everyClaimIsVerified() {
 func c22History() { c22Run(false) }
 
 func c22Run(singleShot bool) {
+	sym.ClockSpan(366 * 24 * 3600) // keeps the native replay (cache sweepers wake once per fake minute) fast
 	sym.Clock()
 	jtis := []string{"", "j0", "j1"}
 	c22Tokens = nil
